@@ -115,6 +115,11 @@ func H_C14(scheme, n int) {
 	vAssert("scheme-type", u.URIType == want)
 	uriWalk(buf, &u)
 	// the numeric port is the decimal value of the port text
+	if u.Port.Len > 0 {
+		// a port is a digit string (C10: the number is the decimal value of
+		// the digit string it points to)
+		vAssert("port-is-a-digit-string", vAllDigits(u.Port.Get(buf)))
+	}
 	if u.Port.Len > 0 && u.Port.Len <= 6 {
 		pt := u.Port.Get(buf)
 		ref, sat := refDec(pt, 65535)
